@@ -64,6 +64,27 @@ def run(ctx, out):
             for k in range(len(p)):
                 de_ops.append(f"len.de {style} {C.hexs(p[:k])}")
                 expect.append("err incomplete")
+    # a prefix followed by ANY amount of data: trailer lengths 0..520 (all of them) behind boundary prefixes of every style,
+    # non-minimal but accepted forms included (81 05, 82 00 05, ff fd 00): length and data must not depend on how much follows
+    sweep = {"tlv": [bytes([0]), bytes([5]), bytes([0x7f]), bytes([0x81, 0x05]), bytes([0x81, 0x80]), bytes([0x81, 0xff]), bytes([0x82, 0x00, 0x05]),
+                     bytes([0x82, 0x01, 0x00]), bytes([0x82, 0xff, 0xff])],
+             "adpu": [bytes([0]), bytes([5]), bytes([0xfe]), bytes([0xff, 0xfd, 0x00]), bytes([0xff, 0xff, 0x00]), bytes([0xff, 0x00, 0x01]), bytes([0xff, 0xff, 0xff])],
+             "llv:2": [bytes([0xf0, 0xf0]), bytes([0xf9, 0xf9]), bytes([0x01, 0x02])], "llv:3": [bytes([0xf0, 0xf0, 0xf0]), bytes([0xf2, 0xf5, 0xf5]), bytes([0xf9, 0xf9, 0xf9])]}
+    def announced(style, p):
+        if style == "tlv":
+            return p[0] if p[0] < 0x80 else (p[1] if p[0] == 0x81 else p[1] * 256 + p[2])
+        if style == "adpu":
+            return p[0] if p[0] != 0xff else p[1] + 256 * p[2]
+        v = 0
+        for d in p:
+            v = v * 10 + (d & 15)
+        return v
+    for style, prefixes in sweep.items():
+        for p in prefixes:
+            for tl in range(0, 521):
+                tail = bytes(((i * 7 + tl) & 0xff) for i in range(tl))
+                de_ops.append(f"len.de {style} {C.hexs(p + tail)}")
+                expect.append(f"ok {announced(style, p)} {C.hexs(tail)}")
     impl2, model2 = ctx.pair(de_ops)
     out.compare("len.de", de_ops, impl2, model2)
     out.evaluations += len(de_ops)
@@ -103,6 +124,6 @@ def run(ctx, out):
     out.nontrivial |= set(ops3[:0])
     out.exhaustive = True
     out.rule = ("exhaustive: every representable length of tlv/adpu/llv:1-4 and every (N, len<=N) of Fixed<0..17> serialised (implementation vs model vs independent reference prefix), "
-                "each parsed back with 3 different trailers and every strict prefix; every 0/1/2-byte string (and a grid or, thorough, 10x65536 3-byte strings) through 8 parsers. "
+                "each parsed back with 3 different trailers and every strict prefix; boundary and non-minimal prefixes of every style followed by every trailer length 0..520; every 0/1/2-byte string (and a grid or, thorough, 10x65536 3-byte strings) through 8 parsers. "
                 "non-trivial = distinct (style, length) pairs whose prefix was checked against the reference")
     out.samples = [ops[300], ops[70000], de_ops[5], ops3[70000], {"op": de_ops[1000], "impl": impl2[1000], "model": model2[1000]}]
